@@ -291,34 +291,62 @@ def _instantiated(flat, goal):
     return uniq, goal
 
 
+def _attempts(flat, qf, goal, scale):
+    """the cheap, hypothesis-dropping / instantiating attempts (see ENGINE.md 8); None if none succeeds"""
+    t0 = time.time()
+    if _by_rewriting(qf, goal):
+        return Verdict('unsat', 'z3-%s(rewriting)' % z3.get_version_string(), time.time() - t0)
+    sk = _instantiated(flat, goal)
+    if sk is not None:
+        for g in _goal_conjuncts(z3.simplify(sk[1])):
+            if _by_rewriting(sk[0], g, external=True):
+                continue
+            v = _discharge2(sk[0], g, False, False, scale, quick=True)
+            if v.status != 'unsat':
+                return None
+        return Verdict('unsat', 'instantiation', time.time() - t0)
+    return None
+
+
 def _discharge1(pc, goal, want_smt2=False, all_backends=False, scale=1):
-    """Check validity of  And(pc) => goal.  First from the quantifier-free facts alone (fewer hypotheses:
-    sound; the quantified ones are often irrelevant and only get the string solvers lost), then in full."""
+    """Check validity of  And(pc) => goal.  Problems over strings: first by rewriting / from instances / from
+    the quantifier-free facts alone (fewer hypotheses: sound; the irrelevant ones are what gets the string solvers
+    lost), then in full.  Other problems: in full first (z3 decides them at once), the attempts only if that
+    does not."""
     flat = []
     for t in pc:
         flat.extend(_goal_conjuncts(t))
+    if z3.is_true(goal) or all_backends or os.environ.get('PYVC_NO_ATTEMPTS'):
+        return _discharge2(flat, goal, want_smt2, all_backends, scale)
     qf = [t for t in flat if not _has_quantifier(t)]
-    if not z3.is_true(goal) and not all_backends:
+    if _uses_strings(flat + [goal]):
+        # what z3 decides about the full problem it usually decides at once
         t0 = time.time()
-        if _by_rewriting(qf, goal):
-            return Verdict('unsat', 'z3-%s(rewriting)' % z3.get_version_string(), time.time() - t0)
-        sk = _instantiated(flat, goal)
-        if sk is not None:
-            ok = True
-            for g in _goal_conjuncts(z3.simplify(sk[1])):
-                if _by_rewriting(sk[0], g, external=True):
-                    continue
-                v = _discharge2(sk[0], g, False, False, scale, quick=True)
-                if v.status != 'unsat':
-                    ok = False
-                    break
-            if ok:
-                return Verdict('unsat', 'instantiation', time.time() - t0)
-    if len(qf) < len(flat) and not z3.is_true(goal) and not all_backends:
-        v = _discharge2(qf, goal, want_smt2, False, scale, quick=True)
-        if v.status == 'unsat':
+        probe = z3.Solver()
+        probe.set('timeout', 1500)
+        probe.add(*flat)
+        probe.add(z3.Not(goal))
+        r = probe.check()
+        if r == z3.unsat:
+            return Verdict('unsat', 'z3-%s' % z3.get_version_string(), time.time() - t0,
+                           smt2=probe.to_smt2() if want_smt2 else None)
+        if r == z3.sat:
+            return Verdict('sat', 'z3-%s' % z3.get_version_string(), time.time() - t0, model=probe.model(),
+                           smt2=probe.to_smt2() if want_smt2 else None)
+        v = _attempts(flat, qf, goal, scale)
+        if v is not None:
             return v
-    return _discharge2(flat, goal, want_smt2, all_backends, scale)
+        if len(qf) < len(flat):
+            v = _discharge2(qf, goal, want_smt2, False, scale, quick=True)
+            if v.status == 'unsat':
+                return v
+        return _discharge2(flat, goal, want_smt2, all_backends, scale)
+    v = _discharge2(flat, goal, want_smt2, all_backends, scale)
+    if v.status == 'unknown':
+        v2 = _attempts(flat, qf, goal, scale)
+        if v2 is not None:
+            return v2
+    return v
 
 
 def _discharge2(pc, goal, want_smt2=False, all_backends=False, scale=1, quick=False):
